@@ -3,9 +3,10 @@
 # REPO defaults to /repo; a background sweep on a snapshot sets VERIF_REPO.
 here="$(cd "$(dirname "$0")/.." && pwd)"
 out="${1:-$here/out/sweep.txt}"; mkdir -p "$(dirname "$out")"; : > "$out"
-for d in "$here"/seeded/C*/[1-9]; do
+# SEED_DIR: where the seeded changes live (default: the committed ones)
+for d in "${SEED_DIR:-$here/seeded}"/C*/[1-9]; do
   p=$(basename "$(dirname "$d")"); k=$(basename "$d")
-  ids=$(python3 -c "import json;m=json.load(open('$d/meta.json'));print(' '.join(sorted(set([m['property']]+[c['check'] for c in m.get('caught_by',[])]))))")
+  ids=$(python3 -c "import json;m=json.load(open('$d/meta.json'));print(' '.join(sorted(set([m.get('property','$p')]+[c['check'] for c in m.get('caught_by',[])]))))")
   for id in $ids; do
     res=$(MUTANT_OUT="$here/out/mutant" "$here/tools/try_mutant.sh" "$d/patch.diff" $id 2>&1)
     viol=$(echo "$res" | grep -c "^VIOLATION"); sig=$(echo "$res" | grep -m1 "signature:" | sed 's/.*signature: //'); wd=$(echo "$res" | grep -c "WATCHDOG")
